@@ -3561,11 +3561,10 @@ impl Transition {
                     if name.len() == e.len() {
                         // Full match
                         return true;
-                    } else if let Some(c) = name.chars().nth(e.len()) {
+                    } else if name.as_bytes().get(e.len()) == Some(&b'.') {
                         // partial match, token needs to be terminated with "."
-                        if c == '.' {
-                            return true;
-                        }
+                        // (e.len() is a byte length, so the position is addressed in bytes)
+                        return true;
                     }
                 }
             }
